@@ -93,7 +93,9 @@ Step(c) ==
             ELSE Die
        [] mode = "slen" ->
             IF c \in Digits THEN acc' = [acc EXCEPT !.d = Append(@, c)] /\ UNCHANGED <<stack, mode>>
-            ELSE IF c = ":" THEN StartBody(Dec(acc.d))
+            \* (a length of ten or more digits exceeds every input this automaton is run on: the body can never be
+            \*  complete; capping it keeps TLC's 32-bit integers out of trouble for lengths such as 2^64 + 3)
+            ELSE IF c = ":" THEN StartBody(IF Len(acc.d) > 9 THEN 1000000000 ELSE Dec(acc.d))
             ELSE Die
        [] mode = "sbody" ->
             IF acc.n = 1 THEN Push(StrV(Append(acc.v, c)))
